@@ -136,6 +136,20 @@ fn augment(s: &Shape, v: &Val, counter: &mut usize, inj: &Injection, hits: &mut 
             }
             (Shape::Struct(name, nf), Val::Struct(nv))
         }
+        (Shape::Tuple(fs), Val::Seq(vals)) | (Shape::TupleStruct(_, fs), Val::Seq(vals)) => {
+            let mut nf = vec![];
+            let mut nv = vec![];
+            for (fshape, fv) in fs.iter().zip(vals) {
+                let (si, vi) = augment(fshape, fv, counter, inj, hits);
+                nf.push(si);
+                nv.push(vi);
+            }
+            let shape = match s {
+                Shape::TupleStruct(name, _) => Shape::TupleStruct(name, nf),
+                _ => Shape::Tuple(nf),
+            };
+            (shape, Val::Seq(nv))
+        }
         _ => panic!("augment: unsupported shape {:?}", s),
     }
 }
@@ -158,7 +172,8 @@ fn augment_shape_only(s: &Shape, counter: &mut usize, inj: &Injection) -> (Shape
             }
             Shape::Struct(name, nf)
         }
-        _ => panic!("augment: unsupported shape"),
+        Shape::Tuple(fs) => Shape::Tuple(fs.iter().map(|f| augment_shape_only(f, counter, inj).0).collect()),
+        Shape::TupleStruct(name, fs) => Shape::TupleStruct(name, fs.iter().map(|f| augment_shape_only(f, counter, inj).0).collect()),
     };
     (out, ())
 }
@@ -374,6 +389,19 @@ pub fn shape_space(args: &Args) -> Vec<Shape> {
     shapes.push(nt(en(obj.clone())));
     shapes.push(Shape::Struct("S", vec![("a", en(obj.clone())), ("b", i32s.clone())]));
     shapes.push(en(Shape::Struct("S", vec![("a", en(obj.clone())), ("b", i32s.clone())])));
+    // serde tuples and tuple structs as nesting contexts (as the document root, as a struct
+    // member - the server's per-field wrapper forwards deserialize_tuple / _tuple_struct -, below
+    // collections)
+    let tup = |fs: Vec<Shape>| Shape::Tuple(fs);
+    let ts = |fs: Vec<Shape>| Shape::TupleStruct("TS", fs);
+    shapes.push(tup(vec![obj.clone(), i32s.clone()]));
+    shapes.push(ts(vec![i32s.clone(), obj.clone()]));
+    shapes.push(Shape::Struct("S", vec![("a", tup(vec![obj.clone(), obj.clone()])), ("b", i32s.clone())]));
+    shapes.push(Shape::Struct("S", vec![("a", ts(vec![obj.clone(), i32s.clone()])), ("b", i32s.clone())]));
+    shapes.push(Shape::seq(tup(vec![i32s.clone(), obj.clone()])));
+    shapes.push(Shape::map(Leaf::Str, ts(vec![obj.clone()])));
+    shapes.push(Shape::opt(tup(vec![obj.clone()])));
+    shapes.push(tup(vec![Shape::seq(obj.clone()), Shape::opt(obj.clone())]));
     shapes
 }
 
